@@ -531,6 +531,7 @@ Lemma with_layers_keeps (Iv : wpred) um body s :
   Iv (s_w s) ->
   (forall ld, LDI (skel (read_layer_files c (w_fs (s_w s)))) ld ->
      check_inheritance (read_layer_files c (w_fs (s_w s))) = true -> paths_ok c (ld_map ld) ->
+     normalize_order (read_layer_files c (w_fs (s_w s))) = Some (ld_order ld) ->
      hs Iv false (body ld) (fun _ => True)) ->
   Iv (s_w (snd (with_layers c um body s))).
 Proof.
@@ -538,7 +539,7 @@ Proof.
   rewrite guard_k. destruct (base_set_up c (w_fs (s_w s))); [|exact HI].
   unfold bind at 1. destruct (get_layers_spec c um s) as (o & E & Ho). rewrite E.
   destruct o as [ld| | | |]; try exact HI.
-  destruct Ho as (HLD & HC & _). pose proof (hs_state Iv (body ld) _ s (Hb ld HLD HC (get_layers_paths _ _ _ _ _ E)) HI) as H.
+  destruct Ho as (HLD & HC & HN). pose proof (hs_state Iv (body ld) _ s (Hb ld HLD HC (get_layers_paths _ _ _ _ _ E) HN) HI) as H.
   unfold bind. destruct (body ld s) as [[ld'| | | |] s']; exact H.
 Qed.
 
@@ -1505,5 +1506,119 @@ Proof.
   intros _. apply post_ret. intros w HFin.
   now apply (ren_final f0 old new Hc0 Hn0 Po Pnw Hon K (l_base l) (w_fs w) HFin HG Hgn Hn Ho Hgo Ln HK PK).
 Qed.
+
+(* ------------------------------------------------------------------ one invocation *)
+Definition covered (cmd : command) : bool :=
+  match cmd with CInit | CMount _ | CChroot _ | CRename _ _ => false | _ => true end.
+
+Section Invocation.
+Variables (e : env) (um : users_map) (s : mst).
+Let f0 := w_fs (s_w s).
+Hypothesis Hc0 : fs_clean f0.
+Hypothesis Hn0 : nolink f0.
+Hypothesis Hcl0 : closed f0.
+Hypothesis HG : gforest (G f0).
+
+Lemma kmount_same o : match o with OMount _ _ _ _ _ | OUmount _ _ => True | _ => False end ->
+  w_fs (s_w (snd ((apply_op o ;;; ret (@None ldefs)) s))) = f0.
+Proof.
+  intros Ho. unfold bind. rewrite apply_op_eq. unfold wact.
+  destruct (op_result o (s_w s)) as [w'|] eqn:E; [|reflexivity]. cbn [snd with_w s_w ret].
+  destruct o; try contradiction; cbn [op_result] in E.
+  - destruct (kmount _ _ _ _ _ _ _); [|discriminate]. now injection E as <-.
+  - destruct (kumount _ _ _); [|discriminate]. now injection E as <-.
+Qed.
+
+Lemma sk_has_order ld : normalize_order (read_layer_files c f0) = Some (ld_order ld) ->
+  forall n, In n (ld_order ld) -> sk_has (skel (read_layer_files c f0)) n.
+Proof. intros HN n Hn. destruct (normalize_names _ _ HN n Hn) as (l & Hl & <-). eapply sk_has_in; eauto. Qed.
+
+Theorem forest_kept_covered cmd : covered cmd = true ->
+  gforest (G (w_fs (s_w (snd (run_command e c um cmd s))))).
+Proof.
+  intros Hcov. destruct cmd; try discriminate; cbn [run_command].
+  - (* add *)
+    apply (add_final f0 name base Hc0 Hn0); [|exact HG].
+    apply (with_layers_keeps (IvAdd f0 name base) um (fun ld => add_layer e c ld name base configfile) s); [now left|].
+    intros ld HLD _ _ _. now apply add_layer_keeps.
+  - (* remove *)
+    apply (rem_final f0 name Hc0 Hn0); [|exact HG].
+    apply (with_layers_keeps (IvRem f0 name) um (fun ld => remove_layer e c ld name files) s); [now left|].
+    intros ld HLD _ HP _. now apply remove_layer_keeps.
+  - (* rebase *)
+    apply (reb_final f0 a b0 Hc0 Hn0); [|exact HG].
+    apply (with_layers_keeps (IvReb f0 a b0) um (fun ld => rebase_layer e c ld a b0) s); [now left|].
+    intros ld HLD _ HP _. now apply rebase_layer_keeps.
+  - (* mkdirs *)
+    apply (mk_final f0 a Hc0 Hn0); [|exact HG].
+    apply (with_layers_keeps (IvMk f0 a) um (fun ld => makedirs e c ld a) s); [now left|].
+    intros ld HLD _ HP _. now apply makedirs_keeps.
+  - (* umount *)
+    assert (H : SameFs f0 (s_w (snd (with_layers c um (fun ld => unmount e c ld a all) s)))).
+    { apply with_layers_keeps; [reflexivity|]. intros ld HLD _ _ HN.
+      eapply (unmount_hs (SameFs f0) false e); eauto using mntop_samefs, refresh_any, sk_has_order. }
+    exact (eq_ind_r (fun f => gforest (G f)) HG H).
+  - (* shake *)
+    assert (H : SameFs f0 (s_w (snd (with_layers c um (fun ld => shake e c ld) s)))).
+    { apply with_layers_keeps; [reflexivity|]. intros ld HLD _ _ HN.
+      eapply (shake_hs (SameFs f0) false e); eauto using mntop_samefs. }
+    exact (eq_ind_r (fun f => gforest (G f)) HG H).
+  - (* probe *)
+    assert (H : SameFs f0 (s_w (snd (with_layers c um (fun ld => ret ld) s)))).
+    { apply with_layers_keeps; [reflexivity|]. intros ld HLD _ _ HN. now apply hs_ret. }
+    exact (eq_ind_r (fun f => gforest (G f)) HG H).
+  - rewrite kmount_same; [exact HG|exact I].
+  - rewrite kmount_same; [exact HG|exact I].
+Qed.
+
+(* a successful rename, operations carried out *)
+Theorem forest_kept_rename a b0 : e_pretend e = false ->
+  match run_command e c um (CRename a b0) s with
+  | (Ret _, s') => gforest (G (w_fs (s_w s')))
+  | _ => True
+  end.
+Proof.
+  intros Hnp. cbn [run_command].
+  apply (with_layers_post um (fun ld => rename_layer e c ld a b0) s (fun w => gforest (G (w_fs w)))).
+  intros ld HLD _ HP.
+  eapply post_conseq; [apply (rename_layer_post f0 e ld a b0 Hc0 Hn0 Hcl0 Hnp HLD HP HG)| |]; cbv beta; auto.
+  intros w ->. reflexivity.
+Qed.
+
+(* pretend mode: every command leaves the file tree as it is *)
+Hypothesis Hnd : NoDup (children f0 (c_layers c)).
+Theorem pretend_same cmd : e_pretend e = true -> w_fs (s_w (snd (run_command e c um cmd s))) = f0.
+Proof.
+  intros Hp.
+  assert (W : forall body,
+    (forall sk ld, LDI sk ld -> SKF sk -> (forall n, In n (ld_order ld) -> sk_has sk n) ->
+       hs (SameFs f0) false (body ld) (fun _ => True)) ->
+    w_fs (s_w (snd (with_layers c um body s))) = f0).
+  { intros body Hb. apply (with_layers_keeps (SameFs f0)); [reflexivity|]. intros ld HLD HC _ HN.
+    apply (Hb _ ld HLD).
+    - apply SKF_of; [now apply check_inh_allreach|now apply rlf_nodup].
+    - now apply sk_has_order. }
+  pose proof (pretend_op f0 e Hp) as P1. pose proof (pretend_wt f0 e Hp) as P2. pose proof (pretend_wa f0 e Hp) as P3.
+  assert (P4 : forall cc sk ld, LDI sk ld ->
+            hs (SameFs f0) false (refresh_mounts cc ld) (fun ld' => LDI sk ld' /\ ld_order ld' = ld_order ld))
+    by (intros; now apply refresh_any).
+  destruct cmd; cbn [run_command].
+  - pose proof (hs_state (SameFs f0) (init_base e c) _ s
+                 (init_base_hs (SameFs f0) false e (fun o _ => P1 o) P2 c) eq_refl) as H.
+    unfold bind. destruct (init_base e c s) as [[u| | | |] s']; exact H.
+  - apply W. intros. eapply (add_layer_hs (SameFs f0) false e); eauto.
+  - apply W. intros. eapply (remove_layer_hs (SameFs f0) false e); eauto.
+  - apply W. intros. eapply (rename_layer_hs (SameFs f0) false e); eauto.
+  - apply W. intros. eapply (rebase_layer_hs (SameFs f0) false e); eauto.
+  - apply W. intros. eapply hs_weaken; [eapply (makedirs_hs (SameFs f0) false e); eauto|auto].
+  - apply W. intros. eapply hs_weaken; [eapply (mount_layer_hs (SameFs f0) false e); eauto|auto].
+  - apply W. intros. eapply (unmount_hs (SameFs f0) false e); eauto.
+  - apply W. intros. eapply (shake_hs (SameFs f0) false e); eauto.
+  - apply W. intros. eapply (chroot_hs (SameFs f0) false e); eauto.
+  - apply W. intros. now apply hs_ret.
+  - apply kmount_same. exact I.
+  - apply kmount_same. exact I.
+Qed.
+End Invocation.
 
 End WithCfg.
